@@ -47,7 +47,9 @@ impl super::Import for Local {
         if self.symlink {
             let path = self.get_path(&build_dir)?;
 
-            let path_parent = path.parent().unwrap();
+            let path_parent = path
+                .parent()
+                .ok_or_else(|| anyhow!("import target {path} has no parent directory"))?;
             std::fs::create_dir_all(path_parent).with_context(|| format!("creating {path}"))?;
 
             let link_target = if self.path.is_relative() {
